@@ -157,7 +157,7 @@ def center_image(IM, method='com', odd_size=True, square=False, axes=(0, 1),
                 IM = IM[:-1, :]
                 rows -= 1
             xs = (cols - rows) // 2
-            IM = IM[:, xs:-xs]
+            IM = IM[:, xs:xs + rows]
 
         rows, cols = IM.shape
 
